@@ -101,17 +101,21 @@ class Translator:
 
     # -- expressions ------------------------------------------------------------
     def is_var(self, node, var, env):
+        if isinstance(node, ast.Name) and isinstance(
+                env.get(node.id), tuple) and env[node.id][:1] == ('view',):
+            return False      # (a helper's parameter of the same name that
+            #                   is bound to a view of the string)
         return isinstance(node, ast.Name) and (
             node.id == var or env.get(node.id) == ('var',))
 
     def _base(self, node, var, env):
         """0 for the validated string itself, k for a local bound to
         <var>[k:] (env value ('view', k)), else None."""
-        if self.is_var(node, var, env):
-            return 0
         if isinstance(node, ast.Name) and isinstance(
                 env.get(node.id), tuple) and env[node.id][:1] == ('view',):
             return env[node.id][1]
+        if self.is_var(node, var, env):
+            return 0
         return None
 
     def string_view(self, node, var, env):
@@ -798,6 +802,56 @@ class Translator:
                         # delegate raises comes out as MarshallingError)
                         st['wrong'].extend(sub['wrong'])
                     continue
+            if isinstance(s, ast.Expr) and isinstance(s.value, ast.Call):
+                # a helper that takes the string (or a view of it: n[1:], or
+                # `n[1:] if <test> else n`) and constants, and only tests and
+                # raises: its body is decided in place, parameter for view
+                callee = self.prog.resolve_name_expr(mod, s.value.func)
+                hf = callee[1] if callee and callee[0] == 'func' else None
+                if isinstance(hf, str):
+                    hf = self.prog.all_funcs.get(hf)
+                a_ = s.value.args
+                if hf is not None and a_ and not s.value.keywords and \
+                        len(a_) == len(hf.params()) and all(
+                            isinstance(x, ast.Constant) for x in a_[1:]) and \
+                        not any(isinstance(x, (ast.Return, ast.Yield))
+                                for x in ast.walk(hf.node)) and depth < 4:
+                    first = a_[0]
+                    arms = [(None, first)]
+                    if isinstance(first, ast.IfExp):
+                        c = self.cond(first.test, var, env, mod)
+                        arms = [(c.true, first.body),
+                                (c.false(), first.orelse)]
+                    if all(self.string_view(e, var, env) is not None
+                           for _, e in arms):
+                        base_arm = self._arm
+                        if len(arms) == 2:
+                            self._arms_seen.discard(base_arm)
+                        outs = []
+                        for lang, e in arms:
+                            k_ = self.string_view(e, var, env)
+                            env2 = dict(env)
+                            env2[hf.params()[0]] = ('var',) if k_ == 0 \
+                                else ('view', k_)
+                            for prm, cst in zip(hf.params()[1:], a_[1:]):
+                                env2[prm] = cst
+                            if len(arms) == 2:
+                                self._arm = base_arm + (
+                                    (s.lineno, e is first.body),)
+                                self._arms_seen.add(self._arm)
+                            sub = {'alive': st['alive'] if lang is None
+                                   else st['alive'] & lang,
+                                   'wrong': st['wrong'],
+                                   'accepted_early': self.NONE}
+                            self.block(hf.node.body, hf, var, env2, sub,
+                                       in_try, depth + 1)
+                            outs.append(sub)
+                        self._arm = base_arm
+                        alive = outs[0]['alive']
+                        for o in outs[1:]:
+                            alive = alive | o['alive']
+                        st['alive'] = alive
+                        continue
             if isinstance(s, ast.Return):
                 st['accepted_early'] = st['accepted_early'] | st['alive']
                 st['alive'] = self.NONE
